@@ -123,11 +123,21 @@ def gen_loaded(rng, small=False, allow_single=True):
         else:
             m.register_load(ld, None, None)
         desc.append((k, form))
-    dist = rng.choice(['none', 'skin', 'coat', 'both', 'skin1', 'coat1'])
+    dist = rng.choice(['none', 'skin', 'coat', 'both', 'skin1', 'coat1', 'skinmix', 'skinmix'])
     if dist in ('skin', 'both'):
         sig = logu(rng, 4, 8)
         for w in m.geo:
             m.register_load(Skin_Effect_Load(w, sig, all_wires=True), None, w.tag)
+    if dist == 'skinmix':
+        # a different material per wire, given as conductivity or as resistivity, registered in random order
+        ws = list(m.geo)
+        rng.shuffle(ws)
+        for w in ws:
+            sig = logu(rng, 4, 8)
+            if rng.random() < 0.5:
+                m.register_load(Skin_Effect_Load(w, sig), None, w.tag)
+            else:
+                m.register_load(Skin_Effect_Load(w, resistivity=1 / sig), None, w.tag)
     if dist == 'skin1':
         w = rng.choice(list(m.geo))
         m.register_load(Skin_Effect_Load(w, resistivity=1 / logu(rng, 4, 8)), None, w.tag)
